@@ -43,7 +43,7 @@ let () =
        | op :: rest ->
            let (args, _) = parse_one rest in
            let args = (match args with Tree.N l -> l | _ -> failwith "args") in
-           let (res, fs') = DispatchFs.run_fs !st !rt !fs (chars_of_hex op) args in
+           let (res, fs') = DispatchFs.run_top !st !rt !fs (chars_of_hex op) args in
            fs := fs';
            print_tree b res
        | [] -> Buffer.add_string b "EMPTY");
